@@ -1,5 +1,10 @@
 //! E-sched: forced schedules at the verification hooks (hooks build only).
 //! case: <scenario>;<request kind>   scenario = change_window | analyze_pair | publish_pair | parse_pair
+//!                                              | two:<state>:<hookA>:<hookB>:<ab|ba>
+//!   two: request Ta is started and parked at its first arrival at hookA, then request Tb is started and parked at
+//!        its first arrival at hookB (if it gets there: it may block on something Ta holds); the gates are opened in
+//!        the given order with time for the released request to finish in between.  state = fresh (nothing opened or
+//!        parsed, disk version 0) | changed (version 1 in the editor, nothing analysed)
 //!                                    kind = completion | diagnostics | definition
 //! result: per request the document version its answer was computed from (read off the answer) and whether
 //!         the answer equals the answer the same request gets alone on that version:  r1=<v>/<same> r2=<v>/<same> hook=<reached>
@@ -43,13 +48,23 @@ fn text(k: usize) -> String {
 }
 
 fn request(pm: &ProjectManager, uri: &Url, kind: &str, k_hint: usize) -> String {
+    request_at(pm, uri, kind, &[k_hint, 0, 1, 2])
+}
+
+/// one request, as a client that knows the document has version k sends it (no second try that could hide an
+/// empty answer computed from a half-analysed document)
+fn request_exact(pm: &ProjectManager, uri: &Url, kind: &str, k: usize) -> String {
+    request_at(pm, uri, kind, &[k])
+}
+
+fn request_at(pm: &ProjectManager, uri: &Url, kind: &str, candidates: &[usize]) -> String {
     let mut pm = pm.clone();
     // positions are version dependent (k leading blank lines): try every candidate version's position and
     // keep the first non-empty answer; the answer itself tells the version
     match kind {
         "completion" => {
             let mut out = String::new();
-            for k in [k_hint, 0, 1, 2] {
+            for &k in candidates {
                 let pos = Position::new(k + 6, 7);
                 if let Ok(items) = pm.generate_completion_proposals(uri, &pos) {
                     let mut labels: Vec<String> = items.iter().map(|i| i.label.clone()).collect();
@@ -66,7 +81,7 @@ fn request(pm: &ProjectManager, uri: &Url, kind: &str, k_hint: usize) -> String 
         },
         "definition" => {
             let mut out = String::new();
-            for k in [k_hint, 0, 1, 2] {
+            for &k in candidates {
                 let pos = Position::new(k + 5, 17);      // on F_v<k> in `self.F_v<k>`
                 if let Ok(links) = pm.generate_goto_definitions(uri, &pos) {
                     if !links.is_empty() {
@@ -110,13 +125,95 @@ fn world(disk_version: usize) -> World {
 fn solo(kind: &str, k: usize) -> String {
     let mut w = world(0);
     let _ = w.pm.notify_document_changed(&w.uri, &text(k), &w.pool);
-    request(&w.pm, &w.uri, kind, k)
+    request_exact(&w.pm, &w.uri, kind, k)
 }
 
 struct Gate { state: Mutex<(bool, bool)>, cv: Condvar }   // (reached, released)
 
+const HOOKS: [&str; 5] = ["analyze:after_cache_check", "annotate:after_publish_tree", "doc:between_read_and_write_lock",
+                          "entity:between_lookup_and_insert", "change:between_reset_and_install"];
+
+fn park(g: &Gate) {
+    let mut st = g.state.lock().unwrap();
+    if st.0 { return; }
+    st.0 = true;
+    g.cv.notify_all();
+    let deadline = std::time::Instant::now() + Duration::from_secs(5);
+    while !st.1 {
+        let left = deadline.saturating_duration_since(std::time::Instant::now());
+        if left.is_zero() { break; }
+        st = g.cv.wait_timeout(st, left).unwrap().0;
+    }
+}
+
+fn wait_reached(g: &Gate, ms: u64) -> bool {
+    let st = g.state.lock().unwrap();
+    let (st, _) = g.cv.wait_timeout_while(st, Duration::from_millis(ms), |s| !s.0).unwrap();
+    st.0
+}
+
+fn open(g: &Gate) { let mut st = g.state.lock().unwrap(); st.1 = true; g.cv.notify_all(); }
+
 pub fn run_case(line: &str) -> String {
     let (scenario, kind) = line.trim().split_once(';').unwrap();
+    if let Some(rest) = scenario.strip_prefix("two:") {
+        // two:<state>:<index of hookA>:<index of hookB>:<order>
+        let f: Vec<&str> = rest.split(':').collect();
+        if f.len() != 4 { return "BADSCENARIO".to_string(); }
+        let (ia, ib) = match (f[1].parse::<usize>(), f[2].parse::<usize>()) { (Ok(a), Ok(b)) if a < HOOKS.len() && b < HOOKS.len() => (a, b), _ => return "BADSCENARIO".to_string() };
+        let (hook_a, hook_b) = (HOOKS[ia], HOOKS[ib]);
+        let changed = match f[0] { "fresh" => false, "changed" => true, _ => return "BADSCENARIO".to_string() };
+        let a_first = match f[3] { "ab" => true, "ba" => false, _ => return "BADSCENARIO".to_string() };
+        let mut w = world(0);
+        let version = if changed { let _ = w.pm.notify_document_changed(&w.uri, &text(1), &w.pool); 1 } else { 0 };
+        let ga = Arc::new(Gate { state: Mutex::new((false, false)), cv: Condvar::new() });
+        let gb = Arc::new(Gate { state: Mutex::new((false, false)), cv: Condvar::new() });
+        let (ca, cb) = (ga.clone(), gb.clone());
+        crate::verif_hooks::install(Some(Arc::new(move |name: &'static str| {
+            let t = std::thread::current();
+            match t.name() {
+                Some("goldverif-ta") if name == hook_a => park(&ca),
+                Some("goldverif-tb") if name == hook_b => park(&cb),
+                _ => (),
+            }
+        })));
+        let spawn = |tname: &str| {
+            let pm = w.pm.clone(); let uri = w.uri.clone(); let k = kind.to_string();
+            let (tx, rx) = std::sync::mpsc::channel();
+            let h = std::thread::Builder::new().name(tname.to_string()).spawn(move || {
+                let a = request_exact(&pm, &uri, &k, version); let _ = tx.send(()); a }).unwrap();
+            (h, rx)
+        };
+        // wait until the request is parked at its gate, has finished, or the time is up
+        let parked_or_done = |g: &Gate, rx: &std::sync::mpsc::Receiver<()>, ms: u64, done: &mut bool| -> bool {
+            let t0 = std::time::Instant::now();
+            loop {
+                if wait_reached(g, 5) { return true; }
+                if !*done && rx.try_recv().is_ok() { *done = true; }
+                if *done || t0.elapsed() > Duration::from_millis(ms) { return false; }
+            }
+        };
+        let (mut done_a, mut done_b) = (false, false);
+        let (ha, rxa) = spawn("goldverif-ta");
+        let ra = parked_or_done(&ga, &rxa, 3000, &mut done_a);
+        let (hb, rxb) = spawn("goldverif-tb");
+        let rb = parked_or_done(&gb, &rxb, 700, &mut done_b);
+        if a_first {
+            open(&ga); if !done_a { let _ = rxa.recv_timeout(Duration::from_millis(400)); } open(&gb);
+        } else {
+            open(&gb); if !done_b { let _ = rxb.recv_timeout(Duration::from_millis(400)); } open(&ga);
+        }
+        let a1 = ha.join().unwrap_or_else(|_| "PANIC".to_string());
+        let a2 = hb.join().unwrap_or_else(|_| "PANIC".to_string());
+        crate::verif_hooks::install(None);
+        let mut out = Vec::new();
+        for (n, a) in [("r1", &a1), ("r2", &a2)] {
+            let v = version_of(kind, a);
+            let same = match v.parse::<usize>() { Ok(k) => *a == solo(kind, k), Err(_) => false };
+            out.push(format!("{}={}/{}", n, v, same));
+        }
+        return format!("{} hook={} hookb={}", out.join(" "), ra, rb);
+    }
     let (hook_name, changer): (&'static str, bool) = match scenario {
         "change_window" => ("change:between_reset_and_install", true),
         "analyze_pair" => ("analyze:after_cache_check", false),
@@ -149,6 +246,7 @@ pub fn run_case(line: &str) -> String {
             st = g2.cv.wait_timeout(st, left).unwrap().0;
         }
     })));
+    let hint = if scenario == "parse_pair" { 0 } else { 1 };
     let pm1 = w.pm.clone(); let uri1 = w.uri.clone(); let kind1 = kind.to_string();
     let first = std::thread::spawn(move || {
         if changer {
@@ -156,7 +254,7 @@ pub fn run_case(line: &str) -> String {
             let _ = pm.notify_document_changed(&uri1, &text(2), &pool);
             String::new()
         } else {
-            request(&pm1, &uri1, &kind1, if kind1 == "x" {0} else {1})
+            request_exact(&pm1, &uri1, &kind1, hint)
         }
     });
     // wait until the first thread is parked at the hook
@@ -166,9 +264,10 @@ pub fn run_case(line: &str) -> String {
         st.0
     };
     let pm2 = w.pm.clone(); let uri2 = w.uri.clone(); let kind2 = kind.to_string();
-    let hint = if scenario == "parse_pair" { 0 } else { 1 };
     let (tx, rx) = std::sync::mpsc::channel();
-    let second = std::thread::spawn(move || { let a = request(&pm2, &uri2, &kind2, hint); let _ = tx.send(()); a });
+    let second = std::thread::spawn(move || {
+        let a = if changer { request(&pm2, &uri2, &kind2, hint) } else { request_exact(&pm2, &uri2, &kind2, hint) };
+        let _ = tx.send(()); a });
     // give the second request time to finish (it may legitimately block until the first moves on)
     let _ = rx.recv_timeout(Duration::from_millis(400));
     { let mut st = gate.state.lock().unwrap(); st.1 = true; gate.cv.notify_all(); }
